@@ -22,6 +22,10 @@ var zzC10Programs = []string{
 	/* 5 */ `<div><template include="s.vuego"><template v-slot="sp"><em :a="sp.x" :b="sp.y">{{ sp.x }}</em></template></template></div>`,
 	/* 6 */ `<p>{{ t | nofn }}</p>`,
 	/* 7 */ `<p v-once>once</p><p v-for="i in items" v-once>loop</p>`,
+	/* 8 */ `<p>Dear {{ t | nofn }} tail</p>`,
+	/* 9 */ `<template :greeting="'hello'" :cnt="n"></template><b>{{ greeting }}{{ cnt }}</b>`,
+	/* 10 */ `<i>[{{ greeting | default("none") }}][{{ cnt | default("none") }}]</i>`,
+	/* 11 */ `<p title="pre {{ t }}">{{ t | upper | lower }}</p>`,
 }
 
 func zzC10FS() *zzFS {
@@ -61,17 +65,41 @@ func VerifC10_MapOrder() {
 func VerifC10_History() {
 	L := zzBound("L", 2, 3)
 	fsys := zzC10FS()
-	used := NewFS(fsys)
+	// how the engine is built and fed: with a filesystem and Fill, or the
+	// filesystem-less New() with variables given through Assign only
+	mkEngine := func() Template { return NewFS(fsys) }
+	render := zzRender
+	nofs := false
+	if zzBool("assignOnly") {
+		mkEngine = func() Template { return New(WithFS(fsys)) }
+		if zzBool("nofs") {
+			nofs = true
+			mkEngine = func() Template { return New() }
+		}
+		render = func(tpl Template, body string, data map[string]any) (string, error) {
+			t := tpl.New()
+			for _, k := range []string{"t", "a", "b", "c", "no", "items", "n"} {
+				t = t.Assign(k, data[k])
+			}
+			w := &zzWriter{limit: 1 << 20}
+			err := t.RenderString(contextBackground(), w, body)
+			return string(w.got), err
+		}
+	}
+	used := mkEngine()
 	for step := 0; step < L; step++ {
 		k := zzChoice("program", len(zzC10Programs))
 		v := zzChoice("data", 2)
-		out, err := zzRender(used, zzC10Programs[k], zzC10Data(v))
-		fresh, ferr := zzRender(NewFS(fsys), zzC10Programs[k], zzC10Data(v))
+		out, err := render(used, zzC10Programs[k], zzC10Data(v))
+		fresh, ferr := render(mkEngine(), zzC10Programs[k], zzC10Data(v))
 		zzNote("program", zzC10Programs[k])
 		zzNote("used", out)
 		zzNote("fresh", fresh)
 		zzAssert((err == nil) == (ferr == nil), "C10.history.error-differs-from-fresh-engine")
 		zzAssert(out == fresh, "C10.history.output-differs-from-fresh-engine")
+	}
+	if nofs {
+		return
 	}
 	// the file entry point as well (template cache)
 	w1 := &zzWriter{limit: 1 << 20}
